@@ -93,6 +93,19 @@ def printable_ranges():
     return _PR
 
 HEXD = lambda d: z3.If(d < 10, 48 + d, 87 + d)
+_SPACES = None
+
+
+def space_term(c):
+    """str.isspace of one (symbolic) code point - exact table from the running interpreter"""
+    global _SPACES
+    if _SPACES is None:
+        _SPACES = [cp for cp in range(0x110000) if chr(cp).isspace()]
+    if isinstance(c, int):
+        return c in _SPACES
+    return z3.Or(*[c == cp for cp in _SPACES])
+
+
 EXACT_LIMIT = 0xA0
 _PR_LOW = None
 _PR_FREE = {}
@@ -162,6 +175,15 @@ class SymStr:
             if branch(self._match_at(i, old)): out += new.chars; i += len(old)
             else: out.append(self.chars[i]); i += 1
         return SymStr(out)
+    def strip(self, chars=None):
+        assert chars is None
+        cs = list(self.chars)
+        while cs and branch(space_term(cs[0])):
+            cs = cs[1:]
+        while cs and branch(space_term(cs[-1])):
+            cs = cs[:-1]
+        return SymStr(cs)
+
     def isprintable(self):
         conds = []
         for c in self.chars:
@@ -239,11 +261,12 @@ class Rewriter(ast.NodeTransformer):
         parts = [v.value if isinstance(v, ast.FormattedValue) else v for v in node.values]
         return ast.Call(ast.Name("rt_fstr", ast.Load()), [ast.List(parts, ast.Load())], [])
 
-def load(path, names):
+def load(path, names, extra_ns=None):
     tree = ast.parse(open(path).read())
-    body = [n for n in tree.body if isinstance(n, ast.FunctionDef) and n.name in names]
+    body = [n for n in ast.walk(tree) if isinstance(n, ast.FunctionDef) and n.name in names]
     mod = ast.fix_missing_locations(Rewriter().visit(ast.Module(body, [])))
     ns = {"rt_contains": rt_contains, "rt_method": rt_method, "rt_fstr": rt_fstr}
+    ns.update(extra_ns or {})
     exec(compile(mod, path, "exec"), ns)
     return ns
 
